@@ -712,7 +712,18 @@ func laFrame(c *Ctx, rule string) {
 	// the data-carrying sink writes: calls that hand bytes (a []byte, string or interface payload) to the sink or a wrapper of it;
 	// wrapping the sink (bufio.NewWriter(w)) and flushing the wrapper carry no data of their own
 	var sites []*OpSite
+	// (the writes of Footer itself, or of a helper of the runtime it hands the serialised metadata to)
+	var cands []*OpSite
 	for _, st := range ops.byFn[ft] {
+		if call, ok := st.Site.(*ssa.Call); ok {
+			if sc := call.Call.StaticCallee(); sc != nil && u.pkgPathOf(sc) == rtPath && sc.Blocks != nil && len(ops.byFn[sc]) > 0 {
+				cands = append(cands, ops.byFn[sc]...)
+				continue
+			}
+		}
+		cands = append(cands, st)
+	}
+	for _, st := range cands {
 		carries := false
 		for _, a := range callArgs(st.Site.Common()) {
 			if ops.t.Has(a) {
@@ -755,7 +766,7 @@ func laFrame(c *Ctx, rule string) {
 			}
 			buf := root(bc.Call.Args[len(bc.Call.Args)-1])
 			if fixedBufLen(bc.Call.Args[len(bc.Call.Args)-1]) == 4 || fixedBufLen(buf) == 4 {
-				for _, blk := range ft.Blocks {
+				for _, blk := range bc.Parent().Blocks {
 					for _, ins := range blk.Instrs {
 						put, ok := ins.(*ssa.Call)
 						if !ok || put.Call.StaticCallee() == nil || !strings.HasSuffix(put.Call.StaticCallee().String(), "littleEndian).PutUint32") {
